@@ -1,34 +1,51 @@
 ------------------------------- MODULE ShamirFieldMC -------------------------------
 (* C20, algebra: GF(2^M) with reduction polynomial x^M + LowN, as computed by the generic operators of data/GF2m, satisfies
    the field axioms for ALL elements.  The generic product, sum and both inverses (extended Euclid, Fermat) are tabulated
-   once over the naturals 0..2^M-1 (the tables ARE the generic operators, evaluated on every pair); one state per pair
-   (a, b); the third operand of the ternary laws is quantified inside the invariant.
+   once, in the initial state, over the naturals 0..2^M-1: the tables ARE the generic operators evaluated on every pair.
+   They live in the state variable tab (TLC re-evaluates constant definitions that are built with RECURSIVE operators on
+   every reference under a quantifier; a state variable is looked up in constant time).  One leaf state per element a
+   (reached through a two-level tree so that the leaves are checked by different workers); the other one or two operands
+   of each law are quantified inside the invariant: every pair for the binary laws, every triple for the ternary ones.
+   ASel restricts the first operand in the quick tier (0 = all elements; otherwise a = 0, 1, 2, 2^M-1 and the elements
+   congruent to ASeed modulo ASel).
    For m = 128 the elements cannot be enumerated; there the same operators decide Rabin's irreducibility test for the
-   documented polynomial (ASSUME at the end): a quotient of GF(2)[x] by an irreducible polynomial is a field. *)
+   documented polynomial (ASSUMEs at the end): the quotient of GF(2)[x] by an irreducible polynomial is a field. *)
 EXTENDS GF2m
-CONSTANTS M, LowN
-VARIABLES a, b
+CONSTANTS M, LowN, ASel, ASeed
+VARIABLES lvl, a, tab
+vars == <<lvl, a, tab>>
 F == [m |-> M, low |-> GfOfNat(LowN)]
 N == GfPow2[M + 1]
+R1 == GfPow2[(M \div 2) + 1]
+R2 == N \div R1
 E == 0..(N - 1)
-MulT == TLCEval([i \in E |-> TLCEval([j \in E |-> GfToNat(GfMul(GfOfNat(i), GfOfNat(j), F))])])
-AddT == TLCEval([i \in E |-> TLCEval([j \in E |-> GfToNat(GfAdd(GfOfNat(i), GfOfNat(j)))])])
-InvT == TLCEval([i \in 1..(N - 1) |-> GfToNat(GfInv(GfOfNat(i), F))])
-InvFT == TLCEval([i \in 1..(N - 1) |-> GfToNat(GfInvFermat(GfOfNat(i), F))])
-Init == a \in E /\ b \in E
-Next == UNCHANGED <<a, b>>
-Closed == MulT[a][b] \in E /\ AddT[a][b] \in E /\ GfIsElem(GfMul(GfOfNat(a), GfOfNat(b), F), F)
-Commutative == MulT[a][b] = MulT[b][a] /\ AddT[a][b] = AddT[b][a]
-Associative == \A c \in E : MulT[MulT[a][b]][c] = MulT[a][MulT[b][c]] /\ AddT[AddT[a][b]][c] = AddT[a][AddT[b][c]]
-Distributive == \A c \in E : MulT[a][AddT[b][c]] = AddT[MulT[a][b]][MulT[a][c]]
-Neutral == MulT[a][1] = a /\ AddT[a][0] = a /\ MulT[a][0] = 0 /\ AddT[a][a] = 0
-Inverses == a # 0 => /\ InvT[a] \in 1..(N - 1) /\ MulT[a][InvT[a]] = 1
-                     /\ InvFT[a] = InvT[a]
-                     /\ (MulT[a][b] = 1 => b = InvT[a])
-                     /\ GfIsInv(GfOfNat(a), GfOfNat(InvT[a]), F)
-NoZeroDivisor == MulT[a][b] = 0 => (a = 0 \/ b = 0)
-ZeroHasNoInverse == GfInv(GfZero, F) = <<>>
-PowIsRepeatedProduct == GfToNat(GfPow(GfOfNat(a), 3, F)) = MulT[MulT[a][a]][a] /\ GfPow(GfOfNat(a), 0, F) = GfOne /\ GfPow(GfOfNat(a), 1, F) = GfOfNat(a)
+Tables == [mul |-> TLCEval([i \in E |-> TLCEval([j \in E |-> GfToNat(GfMul(GfOfNat(i), GfOfNat(j), F))])]),
+           add |-> TLCEval([i \in E |-> TLCEval([j \in E |-> GfToNat(GfAdd(GfOfNat(i), GfOfNat(j)))])]),
+           inv |-> TLCEval([i \in 1..(N - 1) |-> GfToNat(GfInv(GfOfNat(i), F))]),
+           invf |-> TLCEval([i \in 1..(N - 1) |-> GfToNat(GfInvFermat(GfOfNat(i), F))])]
+Selected(x) == ASel = 0 \/ x \in {0, 1, 2, N - 1} \/ (x % ASel) = (ASeed % ASel)
+Init == tab = Tables /\ lvl = 0 /\ a = 0
+Next == /\ lvl < 2 /\ lvl' = lvl + 1 /\ UNCHANGED tab
+        /\ \E d \in 0..((IF lvl = 0 THEN R1 ELSE R2) - 1) : a' = (a * (IF lvl = 0 THEN 1 ELSE R2)) + d
+Leaf == lvl = 2 /\ Selected(a)
+mul == tab.mul
+add == tab.add
+TablesClosed == lvl = 0 => \A i, j \in E : mul[i][j] \in E /\ add[i][j] \in E
+Commutative == Leaf => LET ra == mul[a]  sa == add[a] IN \A b \in E : ra[b] = mul[b][a] /\ sa[b] = add[b][a]
+Associative == Leaf => LET ra == mul[a]  sa == add[a] IN
+                       \A b \in E : LET rab == mul[ra[b]]  rb == mul[b]  sab == add[sa[b]]  sb == add[b]
+                                    IN \A c \in E : rab[c] = ra[rb[c]] /\ sab[c] = sa[sb[c]]
+Distributive == Leaf => LET ra == mul[a] IN
+                        \A b \in E : LET sb == add[b]  sab == add[ra[b]] IN \A c \in E : ra[sb[c]] = sab[ra[c]]
+Neutral == Leaf => mul[a][1] = a /\ add[a][0] = a /\ mul[a][0] = 0 /\ add[a][a] = 0
+Inverses == (Leaf /\ a # 0) => /\ tab.inv[a] \in 1..(N - 1) /\ mul[a][tab.inv[a]] = 1
+                               /\ tab.invf[a] = tab.inv[a]
+                               /\ \A b \in E : mul[a][b] = 1 => b = tab.inv[a]
+                               /\ GfIsInv(GfOfNat(a), GfOfNat(tab.inv[a]), F)
+NoZeroDivisor == Leaf => \A b \in E : mul[a][b] = 0 => (a = 0 \/ b = 0)
+ZeroHasNoInverse == lvl = 0 => GfInv(GfZero, F) = <<>>
+PowIsRepeatedProduct == Leaf => /\ GfToNat(GfPow(GfOfNat(a), 3, F)) = mul[mul[a][a]][a]
+                                /\ GfPow(GfOfNat(a), 0, F) = GfOne /\ GfPow(GfOfNat(a), 1, F) = GfOfNat(a)
 -----------------------------------------------------------------------------
 (* Rabin's test for P of degree n = 128 (only prime divisor of n: 2):  x^(2^128) = x (mod P)  and  gcd(x^(2^64) + x, P) = 1. *)
 RECURSIVE SqN(_,_,_)
@@ -36,6 +53,8 @@ SqN(s, i, G) == IF i = 0 THEN s ELSE SqN(GfMul(s, s, G), i - 1, G)
 X64 == SqN(<<2>>, 64, GfF128)
 ASSUME SqN(X64, 64, GfF128) = <<2>>
 ASSUME GfEuclid(GfPoly(GfF128), GfXor(X64, <<2>>), GfOne, GfZero)[1] = GfOne
+\* Fermat's inverse a^(2^128 - 2) agrees with the extended Euclid inverse (value from plain Python integers at authoring time)
+ASSUME GfInvFermat(<<135>>, GfF128) = <<54391, 16248, 51945, 45089, 36165, 37879, 7342, 23298>> /\ GfInv(<<135>>, GfF128) = GfInvFermat(<<135>>, GfF128)
 \* the test itself is validated on a reducible polynomial of the same shape: x^128 + x^7 + x^2 + 1 is divisible by x + 1
 ASSUME LET G == [m |-> 128, low |-> <<133>>] IN SqN(<<2>>, 128, G) # <<2>>
 =============================================================================
